@@ -35,7 +35,9 @@ META = dict(
          'other member is submitted exactly once and only after each of its '
          'in-group parents succeeded after the command, although its '
          'off-group parent never finishes, and no member is submitted twice.',
-    note='fixture "group" (one cycle point, no queue limits); --flow=none '
+    note='fixtures "group" (one cycle point) and "group2" (foo[-P1] => '
+         'foo; foo => bar over three cycle points: in-group dependence '
+         'across cycles), no queue limits; --flow=none '
          'and repeated triggers are explored in the thorough tier only where '
          'stated; job preparation and messages are played by the stand-in.',
     functions=['commands.force_trigger_tasks', 'commands._force_trigger_tasks',
@@ -57,23 +59,7 @@ META = dict(
 )
 
 CFG = fx.cfg('group')
-NAMES = ['a', 'z', 'b', 'c']
-PARENTS = {'a': [], 'z': [], 'b': ['a', 'z'], 'c': ['b']}
 FLOWS = [[], ['new']]
-# the jobs that have finished when the command arrives
-STAGES = [[], ['a'], ['z'], ['a', 'z'], ['a', 'z', 'b'],
-          ['a', 'z', 'b', 'c']]
-
-
-def connected(gset):
-    seen, todo = set(), [sorted(gset)[0]]
-    while todo:
-        n = todo.pop()
-        if n in seen:
-            continue
-        seen.add(n)
-        todo += [m for m in gset if m in PARENTS[n] or n in PARENTS[m]]
-    return seen == gset
 
 
 def command(sim, ids, flow):
@@ -87,59 +73,91 @@ def command(sim, ids, flow):
     asyncio.run(go())
 
 
-def _run(stage, zblock, gmask, fi, hold, paused, p1, p2, p3):
+SPEC1 = dict(
+    cfg=CFG, ids=['1/a', '1/z', '1/b', '1/c'],
+    parents={'1/a': [], '1/z': [], '1/b': ['1/a', '1/z'], '1/c': ['1/b']},
+    stages=[[], ['1/a'], ['1/z'], ['1/a', '1/z'], ['1/a', '1/z', '1/b'],
+            ['1/a', '1/z', '1/b', '1/c']],
+    block='1/z')
+# inter-cycle dependence inside the group: foo[-P1] => foo; foo => bar
+CFGC = fx.cfg('group2')
+SPEC2 = dict(
+    cfg=CFGC, ids=['1/foo', '2/foo', '3/foo', '2/bar'],
+    parents={'1/foo': [], '2/foo': ['1/foo'], '3/foo': ['2/foo'],
+             '2/bar': ['2/foo']},
+    stages=[[], ['1/foo'], ['1/foo', '1/bar', '2/foo'],
+            ['1/foo', '1/bar', '2/foo', '2/bar', '3/foo', '3/bar']],
+    block=None)
+
+
+def connected(gset, parents):
+    seen, todo = set(), [sorted(gset)[0]]
+    while todo:
+        n = todo.pop()
+        if n in seen:
+            continue
+        seen.add(n)
+        todo += [m for m in gset if m in parents[n] or n in parents[m]]
+    return seen == gset
+
+
+def _run(stage, zblock, gmask, fi, hold, paused, p1, p2, p3, spec=SPEC1):
+    ids, parents = spec['ids'], spec['parents']
     d = tempfile.mkdtemp(prefix='cylc-verif-c28-')
-    sim = Sim(CFG, d)
+    sim = Sim(spec['cfg'], d)
     try:
         sim.cold_start()
+
         def pick(order, block):
-            act = [t for t in sim.active()
-                   if not (t.tdef.name in block)]
+            act = [t for t in sim.active() if t.identity not in block]
             if not act:
                 return None
             return act[next(order, 0) % len(act)]
-        for name in STAGES[stage]:
+        for ident in spec['stages'][stage]:
             sim.loop()
-            t = [t for t in sim.active() if t.tdef.name == name]
+            t = [t for t in sim.active() if t.identity == ident]
             if not t:
                 return False             # (harness: stage not reachable)
             sim.finish(t[0])
         sim.loop()
-        group = [n for i, n in enumerate(NAMES) if gmask >> i & 1]
+        group = [n for i, n in enumerate(ids) if gmask >> i & 1]
         gset = set(group)
         if hold:
-            sim.pool.hold_tasks({TaskTokens('1', n) for n in NAMES})
+            sim.pool.hold_tasks({
+                TaskTokens(*n.split('/')) for n in ids})
             sim.flush()
         sim.schd.is_paused = paused
-        status0 = {t.tdef.name: t.state.status for t in sim.pool.get_tasks()}
+        status0 = {t.identity: t.state.status for t in sim.pool.get_tasks()}
         n0 = len(sim.submitted)
         # ---- the command
-        command(sim, [f'1/{n}' for n in group], FLOWS[fi])
-        start = {m for m in group if not (set(PARENTS[m]) & gset)}
+        command(sim, group, FLOWS[fi])
+        start = {m for m in group if not (set(parents[m]) & gset)}
         live = {m for m in start if status0.get(m) in LIVE}
         done_after = set()
         ok = [True]
         # the flows the command triggers in: all active flows (here {1}), or
         # new flows (numbers from 2: one per connected sub-group)
+
         def triggered(flows):
             return (1 in flows) if fi == 0 else any(f >= 2 for f in flows)
-        final_flows = {}         # (name, submit_num) -> flows when it finished
+        final_flows = {}         # (id, submit_num) -> flows when it finished
 
         def on_submit(t):
-            name = t.tdef.name
+            name = t.identity
             if name in gset and name not in start and triggered(t.flow_nums):
                 if not all(p in done_after
-                           for p in PARENTS[name] if p in gset):
+                           for p in parents[name] if p in gset):
                     ok[0] = False      # ran before an in-group parent
         sim.on_submit = on_submit
         post = iter([p1, p2, p3])
         # z stays blocked after the command unless it is a member
-        block = {'z'} if (zblock and 'z' not in gset) else ()
-        for step in range(14):
+        block = {spec['block']} if (
+            zblock and spec['block'] not in gset) else ()
+        for step in range(16):
             sim.loop()
             if step == 0:
                 # group-start members without a live job start at once
-                now = {s[0] for s in sim.submitted[n0:]}
+                now = {f'{s[1]}/{s[0]}' for s in sim.submitted[n0:]}
                 if not (start - live) <= now:
                     return False
             if step == 1:
@@ -149,14 +167,17 @@ def _run(stage, zblock, gmask, fi, hold, paused, p1, p2, p3):
                 if step >= 2:
                     break
                 continue
-            final_flows[(t.tdef.name, t.submit_num)] = frozenset(t.flow_nums)
+            final_flows[(t.identity, t.submit_num)] = frozenset(t.flow_nums)
             sim.finish(t)
-            done_after.add(t.tdef.name)
+            done_after.add(t.identity)
         if not ok[0]:
             return False
         counts = {}
-        after = [(s[0], s[2], s[3] | final_flows.get((s[0], s[2]), s[3]))
-                 for s in sim.submitted[n0:]]
+        after = []
+        for s in sim.submitted[n0:]:
+            ident = f'{s[1]}/{s[0]}'
+            after.append((ident, s[2],
+                          s[3] | final_flows.get((ident, s[2]), s[3])))
         for name, _sub, flows in after:
             # (flows merge into a job that is already active: it counts)
             if triggered(flows):
@@ -165,7 +186,7 @@ def _run(stage, zblock, gmask, fi, hold, paused, p1, p2, p3):
         # per connected part, and the parts then feed each other's
         # downstream tasks: per-member counts are only claimed for connected
         # groups there)
-        if fi == 0 or connected(gset):
+        if fi == 0 or connected(gset, parents):
             for m in group:
                 n = counts.get(m, 0)
                 if fi == 1 and m not in start and status0.get(m) in LIVE:
@@ -186,6 +207,23 @@ def _run(stage, zblock, gmask, fi, hold, paused, p1, p2, p3):
     finally:
         sim.close()
         shutil.rmtree(d, ignore_errors=True)
+
+
+def cycles(stage: int, gmask: int, fi: int, hold: bool, paused: bool,
+           p1: int, p2: int) -> bool:
+    """
+    pre: sl(fi=fi, stage=stage)
+    pre: 0 <= stage < 4 and 1 <= gmask <= 15 and 0 <= fi <= 1
+    pre: 0 <= p1 <= 1 and 0 <= p2 <= 1
+    pre: not kf('C28.cycles', stage=stage, gmask=gmask, fi=fi)
+    post: _
+    """
+    stage, gmask, fi = (fork_int(stage, 0, 3), fork_int(gmask, 1, 15),
+                        fork_int(fi, 0, 1))
+    p1, p2 = fork_int(p1, 0, 1), fork_int(p2, 0, 1)
+    hold, paused = fork_bool(hold), fork_bool(paused)
+    with concrete():
+        return _run(stage, False, gmask, fi, hold, paused, p1, p2, 0, SPEC2)
 
 
 def trigger(stage: int, zblock: bool, gmask: int, fi: int, hold: bool,
@@ -213,7 +251,10 @@ def OBLIGATIONS(tier):
     t = 2400 if big else 170
     return [Ob(f'trigger[group={g}]', 'trigger', timeout=t, twin=(g == 1),
                slice={'gmask': g, 'post': big})
-            for g in range(1, 16)]
+            for g in range(1, 16)] + [
+        Ob(f'cycles[flow={f},stage={st}]', 'cycles', timeout=t,
+           twin=(st == 0), slice={'fi': f, 'stage': st})
+        for f in (0, 1) for st in range(4)]
 
 
 def VALIDATE():
